@@ -39,7 +39,7 @@ def gen_open(rng, remote):
     if rng.random() < 0.05:
         asfield = 23456
     op = dict(ver=4 if rng.random() < 0.95 else rng.choice([3, 5]), asf=asfield,
-              hold=rng.choice([0, 3, 9, 30, 30, 90, 90, 180, 65535, 3, 9, 90, 1, 2]), id=rng.choice([33686018] * 12 + [0, 16843009]), caps=caps, remote=remote)
+              hold=rng.choice([0, 3, 9, 30, 30, 90, 90, 180, 65535, 3, 9, 90, 1, 2]), id=rng.choice([33686018] * 8 + [0, 16843009, 16843010, 33620225, 16843264, 65794, 167772162, 167772417, 3232235777, 4294967295]), caps=caps, remote=remote)
     return op
 
 
@@ -58,7 +58,7 @@ def gen_case(rng):
     if rng.random() < 0.1 and lf:
         lf.append((lf[0][0], rng.randrange(2), rng.choice([0, 2]), 0))   # duplicate family entry
     gr = rng.randrange(2)
-    conf = dict(las=las, peeras=peeras, ext=1 if (peeras != las) else 0, hold=lhold, ka=lka, id=16843009, members=members,
+    conf = dict(las=las, peeras=peeras, ext=1 if (peeras != las) else 0, hold=lhold, ka=lka, id=rng.choice([16843009, 16843009, 167772417]), members=members,
                 gr=gr, grnotif=rng.randrange(2), grtime=rng.choice([0, 90, 120, 4095]), fams=lf)
     c = dict(conf=conf, open=gen_open(rng, remote))
     if rng.random() < 0.45:
@@ -84,7 +84,7 @@ def norm(c, out):
     """the peer's restart time is meaningful only when graceful restart is in force for this session (with it off, the
     state field keeps whatever an earlier session left there; nothing reads it)"""
     import re
-    return re.sub(r" 0 ([01]) \d+\)$", r" 0 \1 -)", out)
+    return re.sub(r" 0 ([01]) \d+\)( \(dom [01]\))?$", r" 0 \1 -)\2", out)
 
 
 def model_line(c):
@@ -146,6 +146,12 @@ def oracle(c, out):
         bad = (2, 2)
     elif o["hold"] in (1, 2):
         bad = (2, 6)
+    # connection collision: the connection we opened survives iff our identifier is the higher unsigned number (AS as tie-break)
+    dom = [x for x in n[2:] if x and x[0] == "dom"]
+    if dom:
+        want = 1 if (k["id"] > o["id"] or (k["id"] == o["id"] and k["las"] > ras)) else 0
+        if dom[0][1] != want:
+            return ("collision-winner", "isDominant = %s for local identifier %d / AS %d against %d / AS %d" % (dom[0][1], k["id"], k["las"], o["id"], ras))
     if res[0] == "notif":
         if bad is None:
             return ("open-refused", "acceptable OPEN refused with NOTIFICATION %s" % res[1:])
